@@ -962,7 +962,9 @@ func (x *FnExec) finish(args []Val) {
 	}
 	for k, ca := range con.CallAsserts {
 		if !x.assertHit[k] {
-			x.errorf("assert call %s: no call site matches (vacuous assertion)", ca.Callee)
+			// the call the assertion speaks about is gone: the assertion cannot hold (on the
+			// unchanged tree this shows up at once while writing the contract)
+			x.oblige(fmt.Sprintf("assert%d.no_call_site(%s)", k+1, sanitize(ca.Callee)), "assert", ca.Src+" [no call of "+ca.Callee+" in the function]", "true", "false")
 		}
 	}
 }
